@@ -100,3 +100,7 @@ claim("C14", "stateful property-based testing (proptest op sequences) with a fro
 claim("C13", "fault injection over generated histories: worker process aborted at an armed crash point (hook H2), reopened and compared with from-scratch indexes",
       "13 crash points x occurrences x generated histories (with reorganisations): the reopened index must be a fully committed height of the old or new branch and continuing must reach the uninterrupted content.",
       "crash = abort(); OS buffers survive; no crash points inside redb.", category="fault_enumeration")
+
+claim("C19", "property-based testing over generated inscriptions and server configurations; validity predicate per HTTP response",
+      "Hand-built inscriptions (content types incl. invalid bytes, encodings, delegates, hidden ids, reinscriptions) are served by an in-process ord server; every response is judged for body fidelity, content type, encoding handling, CSP presence and sandbox sources, hidden-content leaks and cache headers.",
+      "Accept-Encoding acceptance = ord's exact-token rule; transport compression undone before comparing.")
